@@ -73,6 +73,14 @@ class VIntSet(V):
         return self.member_z(x.z)
 
 
+class VSeqIter(V):
+    """iter(seq): the sequence and how many elements were consumed by next() (a mutable cursor)"""
+    kind = 'seqiter'
+
+    def __init__(self, seq, pos=None):
+        self.seq, self.pos = seq, (pos if pos is not None else IntV(0))
+
+
 class VIntBag(V):
     """a local list of ints that a loop grows by append: the multiset of its elements, cnt[x] = multiplicity (the order is not modelled)"""
     kind = 'intbag'
@@ -238,6 +246,12 @@ def mapped_nodemap(interp, fr, g, e, view):
 
 def next_(interp, argv):
     v = argv[0]
+    if len(argv) == 1 and v.kind == 'seqiter':
+        if interp.ctx.branch(v.pos >= v.seq.n, 'StopIteration'):
+            raise PyRaise('StopIteration', 'next() of an exhausted iterator')
+        x = v.seq.elem(v.pos)
+        v.pos = v.pos + 1
+        return x
     if len(argv) == 1 and v.kind == 'list' and not v.esc:
         if not v.items:
             raise PyRaise('StopIteration', 'next() of an exhausted iterator')
@@ -255,8 +269,43 @@ def set_(interp, argv):
     raise Undecided('set()')
 
 
+def _as_seq(interp, v):
+    if v.kind == 'seq':
+        return v
+    items = interp.static_items(v)
+    if items is not None:
+        n = len(items)
+
+        def elem(k, items=items):
+            if not items:
+                raise Undecided('element of an empty list')
+            out = items[-1]
+            for j in range(len(items) - 2, -1, -1):
+                out = ite_v(k == j, items[j], out)
+            return out
+        return VSeq(IntV(n), elem, {'elem_kind': items[0].kind if items else 'none'})
+    raise Undecided('sequence view of %s' % v.kind)
+
+
+def ite_v(c, a, b):
+    """if c then a else b on values of one scalar kind"""
+    if a.kind != b.kind:
+        raise Undecided('conditional over values of kinds %s/%s' % (a.kind, b.kind))
+    if a.kind == 'node':
+        return VNode(z3.If(c, a.z, b.z))
+    if a.kind == 'int':
+        return VInt(z3.If(c, a.z, b.z))
+    if a.kind == 'tuple' and len(a.items) == len(b.items):
+        return VTuple([ite_v(c, x, y) for x, y in zip(a.items, b.items)])
+    raise Undecided('conditional over values of kind %s' % a.kind)
+
+
 def zip_(interp, argv):
-    raise Undecided('zip()')
+    if len(argv) != 2:
+        raise Undecided('zip() of %d iterables' % len(argv))
+    a, b = _as_seq(interp, argv[0]), _as_seq(interp, argv[1])
+    n = z3.If(a.n <= b.n, a.n, b.n)
+    return VSeq(n, lambda k: VTuple([a.elem(k), b.elem(k)]), {'elem_kind': 'tuple', 'zip_of': (a, b)})
 
 
 def enumerate_(interp, argv):
@@ -272,10 +321,16 @@ def enumerate_(interp, argv):
 
 
 def to_seq(interp, v):
+    if v.kind == 'seq':
+        return v                    # list(s): a list with the same elements (s is never mutated afterwards by the subset)
     raise Undecided('list() of %s' % v.kind)
 
 
 def seq_binop(interp, op, a, b):
+    import ast as _ast
+    if isinstance(op, _ast.Add):
+        a, b = _as_seq(interp, a), _as_seq(interp, b)
+        return VSeq(a.n + b.n, lambda k: ite_v(k < a.n, a.elem(k), b.elem(k - a.n)), {'elem_kind': a.meta.get('elem_kind'), 'concat_of': (a, b)})
     raise Undecided('sequence arithmetic')
 
 
@@ -291,7 +346,14 @@ def seq_getitem(interp, c, key):
 
 
 def seq_slice(interp, c, lo, hi):
-    raise Undecided('seq slice')
+    """s[a:b] for constant a >= 0 (or omitted) and constant b < 0 (or omitted)"""
+    a = concrete_int(lo.z) if lo is not None else 0
+    b = concrete_int(hi.z) if hi is not None else 0
+    if a is None or b is None or a < 0 or b > 0:
+        raise Undecided('slice bounds other than [const>=0 : const<=0]')
+    m = c.n - a + b
+    n2 = z3.If(m > 0, m, IntV(0))
+    return VSeq(n2, lambda k: c.elem(k + a), {'elem_kind': c.meta.get('elem_kind'), 'slice_of': (c, a, b)})
 
 
 def symbolic_comprehension(interp, e, fr, it, what):
@@ -364,6 +426,9 @@ def symbolic_comprehension(interp, e, fr, it, what):
         from .loops import VBag
         NodeIn = it.g['NodeIn']
         return VBag([Node], lambda a: NodeIn[a], lambda a: VNode(a), note='nodes')
+    if it.kind == 'seqiter':
+        rest = it
+        it = VSeq(z3.If(rest.seq.n - rest.pos > 0, rest.seq.n - rest.pos, IntV(0)), lambda k, r=rest, p=rest.pos: r.seq.elem(k + p), dict(rest.seq.meta))
     if it.kind == 'nodemapview' and what == 'list':
         return mapped_nodemap(interp, fr, g, e, it)
     if it.kind == 'bag' and what == 'list' and not g.ifs and isinstance(g.target, _ast.Name) and isinstance(e.elt, _ast.Name) and e.elt.id == g.target.id:
